@@ -50,12 +50,17 @@ N_CASES = {"quick": 300, "thorough": 24000}
 BUDGET = {"quick": 600, "thorough": 5400}
 
 
+N_LINKED = {"quick": 72, "thorough": 2400}
+N_VIEWS = {"quick": 60, "thorough": 2400}
+VIEWS = ["scale=0.5", "scale=-0.7", "inverse", "inverse_updated"]  # linked views take their parameters from the other transform (like a callable): grid_() only sets their grid
+
+
 def plan(tier, seed):
-    return [["probe", "condition_linear_callable"]] + [["case", i] for i in range(N_CASES[tier])]
+    return [["probe", "condition_linear_callable"]] + [["case", i] for i in range(N_CASES[tier])] + [["svf_view", j] for j in range(N_VIEWS[tier])] + [["linked_inverse", j] for j in range(N_LINKED[tier])]
 
 
 def mandatory(tier):
-    return [f"model/{m}" for m in MODELS] + [f"op/{o}" for o in OPS] + [f"kind/{k}" for k in X.KINDS] + [f"grid_/at_new_samples/{k}" for k in ("resize", "other_domain", "same_shape")] + ["first_read_is_inverse", "image_transformer_reads_first"]
+    return [f"model/{m}" for m in MODELS] + [f"op/{o}" for o in OPS] + [f"kind/{k}" for k in X.KINDS] + [f"grid_/at_new_samples/{k}" for k in ("resize", "other_domain", "same_shape")] + ["first_read_is_inverse", "image_transformer_reads_first", "pointset_transformer_reads_first"] + [f"svf_view/{v}" for v in VIEWS] + ["svf_view/grid_/flip_align_corners", "linked_inverse/data_", "linked_inverse/inplace", "linked_inverse/kind/parameter", "linked_inverse/kind/buffer"]
 
 
 class Subject:
@@ -163,6 +168,10 @@ def run_item(ctx, item):
 
     if item[0] == "probe":
         return probe_condition(ctx)
+    if item[0] == "svf_view":
+        return svf_view(ctx, item[1])
+    if item[0] == "linked_inverse":
+        return linked_inverse(ctx, item[1])
     i = item[1]
     rng = ctx.rng()
     model = MODELS[i % len(MODELS)]
@@ -225,6 +234,11 @@ def compare_fresh(ctx, subj, x, history_, info, what, inverse=None):
             from deepali import spatial as S_
 
             want = S_.ImageTransformer(subj.fresh())(inverse["image"])
+        elif what == "points":  # through a PointSetTransformer built earlier on the same transform object
+            from deepali import spatial as S_
+
+            got = inverse(x)
+            want = S_.PointSetTransformer(subj.fresh())(x)
         elif what == "inv_disp":  # the ready-made inverse read without going through its call hook
             got = t.inv.disp()
             want = subj.fresh(invert=True).disp()
@@ -256,6 +270,7 @@ def history(ctx, rng, info, subj, i):
     hist = []
     inv = None
     warper = None
+    mapper = None
     from deepali import spatial as S
 
     max_len = 8 if ctx.tier == "quick" else 12
@@ -292,6 +307,7 @@ def history(ctx, rng, info, subj, i):
                 # transform was re-gridded is not defined by the property; it is no longer followed
                 inv = None
                 warper = None  # built for the old grid
+                mapper = None
             elif op == "condition_":
                 args = dict(scale=float(rng.uniform(0.3, 1.2)), shift=float(rng.uniform(-1, 1)))
                 desc.update(args)
@@ -349,6 +365,12 @@ def history(ctx, rng, info, subj, i):
         ctx.count(f"bigram/{prev}>{op}")
         prev = op
         with ctx.guard("call", key=f"exc/call_after/{op}", history=list(hist), **info):
+            if step % 4 == 0:
+                # the point set transformer is the first reader (it must trigger the update itself)
+                if mapper is None:
+                    mapper = S.PointSetTransformer(t)
+                ctx.bucket("pointset_transformer_reads_first")
+                compare_fresh(ctx, subj, x, hist, info, "points", inverse=mapper)
             if step % 2:
                 # the image transformer is the first reader every other step (it must trigger the update itself)
                 if warper is None:
@@ -365,7 +387,86 @@ def history(ctx, rng, info, subj, i):
         ctx.sample({"case": info, "history": hist})
 
 
-def grid_op(ctx, rng, info, subj, hist, desc):
+def linked_inverse(ctx, j):
+    r"""A linked inverse created early in a history reads the forward transform's parameters of the moment."""
+    import torch
+
+    rng = ctx.rng()
+    models = X.LINEAR + X.LINEAR_COMPOSITE + ["StationaryVelocityFieldTransform"]
+    model = models[j % len(models)]
+    kind = ["parameter", "buffer"][(j // len(models)) % 2]
+    how = ["inverse(link=True)", "inv"][(j // (2 * len(models))) % 2]
+    D = 3 if (model in X.ONLY_3D or j % 3 == 0) else 2
+    g = gen.make_grid(gen.rand_grid_params(rng, D, max_size=12 if D == 2 else 8, min_size=7 if D == 2 else 6, big_offset=False))
+    info = dict(model=model, kind=kind, D=D, how=how)
+    ctx.nontriv("linked_inverse", model, kind, how, j)
+    x = torch.tensor(rng.uniform(-0.5, 0.5, size=(1, 11, D)), dtype=torch.float32)
+    hist = ["build"]
+    with ctx.guard("linked_inverse", key=f"exc/linked_inverse/{model}/{kind}", history=hist, **info), torch.no_grad():
+        t, _ = X.make(rng, model, g, groups=1, kind=kind, amplitude=0.4)
+        inv = t.inv if how == "inv" else t.inverse(link=True)
+        hist.append(how)
+        velocity = "Velocity" in model
+        n = np.array([float(k) for k in g.size()])
+        tol = (0.35 * 0.16 + 0.09 * 0.4) * float((2.0 / (n - 1 if g.align_corners() else n)).max()) * 2 if velocity else 1e-4
+        leaves_ = [m for m in t.modules() if hasattr(m, "params") and isinstance(m.params, torch.Tensor)]
+        for step in range(int(rng.integers(3, 6))):
+            op = str(rng.choice(["data_", "inplace", "data_", "call_forward", "call_inverse"]))
+            if op == "data_":
+                for m in leaves_:
+                    p_ = m.params
+                    m.data_(p_.detach().clone() + torch.randn_like(p_) * 0.05 * (float(p_.abs().mean()) + 0.1))
+            elif op == "inplace":
+                for m in leaves_:
+                    m.params.add_(torch.randn_like(m.params) * 0.05 * (float(m.params.abs().mean()) + 0.1))
+            elif op == "call_forward":
+                t(x)
+            else:
+                inv(x)
+            hist.append(op)
+            ctx.bucket(f"linked_inverse/{op}")
+            back = inv(t(x))
+            ctx.close("linked_inverse_inverts_current_forward_map", back, x.numpy(), tol, key=f"linked_inverse/after_{op}/{'velocity' if velocity else 'linear'}-{kind}", history=list(hist), **info)
+        ctx.bucket(f"linked_inverse/kind/{kind}")
+
+
+def svf_view(ctx, j):
+    r"""grid_() of velocity-field transforms whose exponential is scaled or negated (inverse views)."""
+    import torch
+
+    rng = ctx.rng()
+    view = VIEWS[j % len(VIEWS)]
+    name = "StationaryVelocityFreeFormDeformation" if (j // len(VIEWS)) % 4 == 3 else "StationaryVelocityFieldTransform"
+    kind = ["parameter", "buffer"][(j // (len(VIEWS) * 4)) % 2]
+    D = 2 if j % 3 else 3
+    need_ac = "FreeForm" in name
+    gp = gen.rand_grid_params(rng, D, max_size=12 if D == 2 else 8, min_size=7 if D == 2 else 6, big_offset=False, align_corners=True if need_ac else None)
+    g = gen.make_grid(gp)
+    info = dict(model=name, kind=kind, D=D, view=view)
+    ctx.nontriv("svf_view", name, kind, view, j)
+    with ctx.guard("svf_view", key=f"exc/svf_view/{name}/{view}", **info):
+        kw = {"scale": float(view.split("=")[1])} if view.startswith("scale=") else {}
+        base, inf = X.make(rng, name, g, groups=1, kind=kind, amplitude=0.6, **kw)
+        base.update()
+        if view == "inverse":
+            t = base.inverse()
+        elif view == "inverse_updated":
+            t = base.inverse(update_buffers=True)
+        else:
+            t = base
+        ctx.bucket(f"svf_view/{view}")
+        scale0 = float(t.exp.scale) if t.exp.scale is not None else 1.0
+        subj = Subject(t, name, kind, inf.get("extra", {}))
+        desc = {"op": "grid_"}
+        hist = [f"build({view})"]
+        force = None if need_ac else [1, 1, 0, 2, 3, 4][(j // len(VIEWS)) % 6]
+        if grid_op(ctx, rng, info, subj, hist, desc, force=force):
+            ctx.bucket(f"svf_view/grid_/{desc.get('kind')}")
+            ctx.true("grid_change_keeps_exponential_scale", abs((float(t.exp.scale) if t.exp.scale is not None else 1.0) - scale0) < 1e-12, key=f"grid_/{desc.get('kind')}/{name}", got=t.exp.scale, want=scale0, history=hist, **info)
+            ctx.true("grid_change_keeps_exponential_steps", t.exp.steps == base.exp.steps, key=f"grid_/{desc.get('kind')}/{name}", got=t.exp.steps, want=base.exp.steps, **info)
+
+
+def grid_op(ctx, rng, info, subj, hist, desc, force=None):
     r"""grid_(): world-space deformation preserved at common points; returns False if not applicable."""
     import torch
 
@@ -384,7 +485,7 @@ def grid_op(ctx, rng, info, subj, hist, desc):
         # is re-computed by scaling and squaring on the finer grid (interpolation-level change)
         bound_rel, floor = (1e-3, 1e-5) if subj.name == "FreeFormDeformation" else (0.05, 1e-4)
     else:
-        choice = int(rng.integers(0, 5))
+        choice = int(rng.integers(0, 5)) if force is None else force
         dense_exact = 1e-3 if subj.name == "DisplacementFieldTransform" else 0.03
         if choice == 0:
             g2 = g.resize(tuple(int(rng.integers(max(5, n // 2 + 1), 2 * n)) for n in g.size()))
